@@ -15,11 +15,11 @@ use std::time::Duration;
 use vcore::gram::{RefGrammar, Sym, Universe};
 use vcore::pool::{WOut, run_pool, worker_main};
 use vcore::real::{YK, build_grammar};
-use vcore::refs::{Analysis, Earley, analyse, bounded_languages, brute_analysis};
+use vcore::refs::{Analysis, Earley, TokSet, analyse, bounded_languages, brute_analysis};
 use vcore::report::Ctx;
 
-fn vob_to_set(v: &vob::Vob, grm: &YaccGrammar<u32>, g: &RefGrammar) -> Result<u64, String> {
-    let mut out = 0u64;
+fn vob_to_set(v: &vob::Vob, grm: &YaccGrammar<u32>, g: &RefGrammar) -> Result<TokSet, String> {
+    let mut out: TokSet = 0;
     for i in v.iter_set_bits(..) {
         let tidx = TIdx(i as u32);
         if tidx == grm.eof_token_idx() {
@@ -35,7 +35,7 @@ fn vob_to_set(v: &vob::Vob, grm: &YaccGrammar<u32>, g: &RefGrammar) -> Result<u6
     Ok(out)
 }
 
-fn set_str(g: &RefGrammar, s: u64) -> String {
+fn set_str(g: &RefGrammar, s: TokSet) -> String {
     let mut v = vec![];
     for t in 0..=g.ntoks {
         if s & (1 << t) != 0 {
@@ -683,7 +683,18 @@ pub fn run(ctx: Ctx) -> i32 {
     } else {
         universe_list(&[(2, 2, 2, 2, 6), (2, 2, 2, 3, 5), (2, 3, 2, 2, 6), (2, 2, 3, 2, 6), (3, 2, 2, 2, 6), (2, 2, 2, 3, 7)])
     };
-    let (grammars, sizes) = union(lists);
+    let (mut grammars, mut sizes) = union(lists);
+    // structured families (static analyses only: they are larger than the cost passes' bounds):
+    // nullable chains in both definition orders, empty-production idioms, and the same skeletons
+    // moved to token indices 62-120 / rule indices up to 65 (bit vectors longer than one word)
+    for (n, f) in [
+        ("F-chains", vcore::gram::family_chains()),
+        ("F-empty", vcore::gram::family_empty().into_iter().chain(vcore::gram::family_empty2()).collect::<Vec<_>>()),
+        ("F-wide (tokens from index 62-120, rules from index 1-65)", vcore::gram::family_wide()),
+    ] {
+        sizes.push((n.to_string(), f.len()));
+        grammars.extend(f);
+    }
     ctx.set("grammars", grammars.len() as u64);
 
     // 0. validate the reference analyses against brute force (machinery self-check)
